@@ -139,6 +139,43 @@ var checkUDist = ev.Register("udist", func(c *Case) ev.Outcome {
 			return ev.Fail("PMF over attainable points sums to %.15g", sumPMF)
 		}
 	}
+	// the same backing array with new contents (a caller that recycles its tie vector): the
+	// result must follow the contents
+	if T != nil && len(T) >= 2 {
+		rev := make([]int, len(T))
+		for i, t := range c.T {
+			rev[len(T)-1-i] = t
+		}
+		same := true
+		for i := range rev {
+			if rev[i] != c.T[i] {
+				same = false
+			}
+		}
+		if !same {
+			probe := float64(nn) / 2
+			if len(us) > 0 {
+				probe = us[len(us)/2]
+			}
+			_ = d.CDF(probe)
+			copy(T, rev) // overwrite in place
+			ur := ref.UExact(c.N1, c.N2, rev)
+			for _, x := range []float64{probe, math.Floor(float64(nn) / 3)} {
+				var want float64
+				switch {
+				case x < 0:
+					want = 0
+				case x >= float64(nn):
+					want = 1
+				default:
+					want = ur.PLE(int(math.Floor(2 * x)))
+				}
+				if got := d.CDF(x); !(math.Abs(got-want) <= tol) {
+					return ev.Fail("after the tie vector was overwritten in place with %v, CDF(%v) = %.15g, exact %.15g", rev, x, got, want)
+				}
+			}
+		}
+	}
 	classes := []string{}
 	switch {
 	case c.T == nil:
